@@ -131,3 +131,34 @@ PLANS["C11"] = dict(
                  "at most three live copies of one point in random histories (keeps cell edges exact at 1/1024)"],
     trusted_base=["TLC 2026.09.04", "CommunityModules Json/IOUtils", "quadtree/verif_walk.go (build tag verif)"],
 )
+
+# ---- C19 -------------------------------------------------------------------------------------------
+
+
+def run_c19(ctx):
+    ctx.mc("QuadtreeConcMC", "QuadtreeConcMC_ok.cfg", note="3 query processes, all interleavings: NoSharedWrite, Deterministic, TreeUnchanged")
+    ctx.mc_expect_violation("QuadtreeConcMC", "QuadtreeConcMC_shared_write.cfg", "NoSharedWrite", note="non-vacuity: search box kept in the tree object")
+    ctx.mc_expect_violation("QuadtreeConcMC", "QuadtreeConcMC_shared_result.cfg", "Deterministic", note="non-vacuity: a query prunes with another query's box")
+    ctx.mc_expect_violation("QuadtreeConcMC", "QuadtreeConcMC_compact.cfg", "TreeUnchanged", note="non-vacuity: a reader unlinks emptied leaves")
+    for v in (["A"] if not ctx.thorough() else ["A", "B", "C"]):
+        cases = ctx.tlcgen("QuadtreeConcGen", "QuadtreeConcGen_%s.cfg" % v)
+        shards = ctx.gen("qtsched", cases=cases, name="qtsched" + v)
+        ctx.validate("QuadtreeList_Trace", shards, stage="scheduled-interleavings-" + v)
+    if os.environ.get("VERIF_SKIP_RACE"):      # diagnosis only: see what the scheduled stage catches alone
+        return
+    race = ctx.build(race=True)
+    shards = ctx.gen("qtrace", binary=race, env={"GORACE": "halt_on_error=1 exitcode=66"})
+    ctx.validate("QuadtreeList_Trace", shards, stage="free-running-goroutines-race-detector")
+    ctx.exhaustive = True
+    ctx.notes.append("exhaustive part: every interleaving (at node-visit granularity) of two queries on an 8-point tree with removals")
+
+
+PLANS["C19"] = dict(
+    run=run_c19, signature=sig_default,
+    technique="TLA+ spec of queries as interleaved per-visit processes over a read-only tree; TLC checks all interleavings (and that shared-scratch designs fail), emits every interleaving as a schedule replayed into gated goroutines, and validates results of free-running goroutines under the race detector",
+    level_text="TLC checks every interleaving of 3 query processes (nearest and k-nearest, one step per node visit) over a tree with removals for NoSharedWrite, Deterministic (= the same query alone) and TreeUnchanged, and confirms that the two forbidden designs (search box in the tree object; readers compacting emptied leaves) violate them. Every interleaving of two queries is then emitted as a schedule and replayed: one goroutine per query, each node visit gated through the filter callback; after it, results must equal the same query run alone and satisfy the bag-model relations, and the node tree (hook VerifWalk) must be identical. Finally 2..32 free-running goroutines with mixed queries and per-goroutine buffers run on seeded trees under the Go race detector; a race report kills the harness and is a violation.",
+    level_note="Schedules are at filter-call granularity (the only hookless yield point); instructions inside one visit are not interleaved deterministically - that is what the race-detector stage covers probabilistically. Trusted: TLC, the Go race detector, the VerifWalk hook.",
+    rule="one event = one tree-building operation or one goroutine's query batch (concurrent results, the same queries alone, node tree before/after); every event non-trivial; distinct = distinct event text",
+    assumptions=["goroutine scheduling between gates is sequentialised by the controller; within a visit the Go scheduler decides"],
+    trusted_base=["TLC 2026.09.04", "CommunityModules Json/IOUtils", "Go race detector", "quadtree/verif_walk.go"],
+)
